@@ -21,6 +21,24 @@ def values_record(sk, values, leaf=None):
     return r
 
 
+def residue_prone(sk):
+    """a SPLIT/UNSPLIT ratio whose reciprocal is not a terminating decimal (1/3, 2/5 is fine)"""
+    from fractions import Fraction
+    for l in sk.get("lines") or []:
+        if l[0] in ("X", "U") and len(l) > 3 and l[3] and l[3] != "sym":
+            d = Fraction(l[3]).numerator if l[0] == "U" or True else 1
+            for p in (2, 5):
+                while d % p == 0:
+                    d //= p
+            n = Fraction(l[3]).denominator
+            for p in (2, 5):
+                while n % p == 0:
+                    n //= p
+            if d != 1 or n != 1:
+                return True
+    return False
+
+
 def sig_equal(a, b):
     return json.dumps(a, sort_keys=True) == json.dumps(b, sort_keys=True)
 
@@ -118,6 +136,7 @@ def run_property(spec, tier, seed):
     # --- path witnesses
     wit_leaves = [lf for lf in leaves if lf.get("witness")]
     wit_ok = 0
+    residue_refusals = 0
     wit_bad = []
     if wit_leaves:
         recs, keep = [], []
@@ -135,6 +154,17 @@ def run_property(spec, tier, seed):
                 continue
             if sig_equal(lf["sig"], rr["sig"]) and (lf["outcome"] == rr["outcome"] or spec.get("outcome_free")):
                 wit_ok += 1
+                continue
+            # the real build behaves differently on this solver-chosen input. If the property's own obligations are refuted
+            # by the REAL run, that is a counterexample on the real code (typically 28-digit decimal residue, which the exact
+            # symbolic arithmetic cannot see); otherwise the encoding and the code disagree and the run is inconclusive.
+            bad = [o for o in rr["obs"] if o["v"] == "R" and not o.get("ab")]
+            if bad:
+                reproduced.append((dict(lf, msg=rr.get("msg", "")), bad[0], rec, rr))
+            elif pid != "C05" and residue_prone(by_id[lf["sk"]]) and str(rr["outcome"]).startswith("err"):
+                # a refusal by the real build on a ledger with a split ratio whose reciprocal does not terminate: decimal
+                # residue, the subject of C05's boundary/witness replays, not of this property
+                residue_refusals += 1
             else:
                 wit_bad.append((lf, rec, rr))
 
@@ -252,6 +282,7 @@ def run_property(spec, tier, seed):
             "paths_capped": tot["capped"],
             "path_witnesses_checked": wit_ok + len(wit_bad),
             "boundary_witnesses_replayed": bw_checked,
+            "real_build_residue_refusals_at_witnesses": residue_refusals,
             "counterexamples_replayed": replayed,
             "counterexamples_reproduced": len(reproduced),
             "known_findings_hit": list(known_hits),
